@@ -1,12 +1,13 @@
 /-
-  C04 for flexbox, part 6: `determine_container_main_size`.
+  C04 for flexbox, part 6: `determine_container_main_size`, the intrinsic arm (min- or max-content main size of a
+  container without definite main size).
 
-  The definite / wrapping-min-content arms are pure and homogeneous.  The intrinsic arm (min- or max-content main size of a
-  container without definite main size) sends homogeneous QUERIES, but computes
-      content_flex_fraction = diff / max(1, flex_shrink · inner_flex_basis)         when diff < 0
-  — a length (`inner_flex_basis`, times a factor) compared with the literal 1 (flexbox.rs l.1095).  `ItemFloorFree k i`
-  is the exact condition under which the item leaves the arm as the scaled item:
-      content_flex_fraction < 0 → inner_flex_basis = 0 ∨ (1 ≤ flex_shrink·inner_flex_basis ∧ 1 ≤ k·flex_shrink·inner_flex_basis)
+  For every item the arm sends one homogeneous query (or none) and computes
+      content_flex_fraction = diff / max(1, flex_grow)                                      when diff > 0   (a length)
+                            = diff / (max(1, flex_shrink) · inner_flex_basis)               when diff < 0   (a number;
+                              0 when the scaled shrink factor is not positive)
+  (flexbox.rs ll.1088–1107, as repaired: the flex shrink FACTOR is floored at 1, not its product with the inner flex
+  basis) and multiplies it back by the same factor: every piece is homogeneous, with no side condition.
 -/
 import TaffyVerif.Lemmas.FlexScaleProg2
 
@@ -19,21 +20,6 @@ open Scalable FlexModel FlexStages BlockModel
 open FlexLine (sumF sumAxisGaps)
 
 variable {k : Rat}
-
-/-- the side condition on one item as it leaves `determine_container_main_size` (decidable) -/
-def ItemFloorFree (k : Rat) (i : FlexItem Rat) : Prop :=
-  i.contentFlexFraction < 0 →
-    i.innerFlexBasis = 0 ∨ (1 ≤ i.flexShrink * i.innerFlexBasis ∧ 1 ≤ k * (i.flexShrink * i.innerFlexBasis))
-
-instance (k : Rat) (i : FlexItem Rat) : Decidable (ItemFloorFree k i) := by unfold ItemFloorFree; exact inferInstance
-
-def ItemsFloorFree (k : Rat) (items : List (FlexItem Rat)) : Prop := ∀ i ∈ items, ItemFloorFree k i
-def LinesFloorFree (k : Rat) (lines : List (FlexLineS Rat)) : Prop := ∀ l ∈ lines, ItemsFloorFree k l.items
-
-instance (k : Rat) (items : List (FlexItem Rat)) : Decidable (ItemsFloorFree k items) := by
-  unfold ItemsFloorFree; exact inferInstance
-instance (k : Rat) (lines : List (FlexLineS Rat)) : Decidable (LinesFloorFree k lines) := by
-  unfold LinesFloorFree; exact inferInstance
 
 /-! ### the pure pieces of the intrinsic arm -/
 
@@ -99,14 +85,21 @@ theorem inContentCol_scale (hk : 0 < k) (c : AlgoConstants Rat) (inset : Rat) (i
     inContentCol (scale k c) (scale k inset) (scale k item) (scale k m) = scale k (inContentCol c inset item m) := by
   simp only [inContentCol, scale_simp, hk]
 
-/-! ### the floor -/
+/-! ### the flex fraction -/
 
 theorem one_le_fmax_one (x : Rat) : 1 ≤ Num.fmax (1 : Rat) x := by
   rw [fmax_def]; split <;> linarith
 
+/-- the scaled flex shrink factor `max(1, flex_shrink) · inner_flex_basis` -/
+def ssf (item : FlexItem Rat) : Rat := Num.fmax 1 item.flexShrink * item.innerFlexBasis
+
+theorem ssf_scale (k : Rat) (item : FlexItem Rat) : ssf (scale k item) = k * ssf item := by
+  unfold ssf
+  rw [fxi_flexShrink, fxi_innerFlexBasis, scale_rat]; ring
+
 theorem inFraction_of_neg (item : FlexItem Rat) (cc : Rat) (h : cc - item.flexBasis < 0) :
-    inFraction item cc = (cc - item.flexBasis) / Num.fmax 1 (item.flexShrink * item.innerFlexBasis) := by
-  unfold inFraction
+    inFraction item cc = if 0 < ssf item then (cc - item.flexBasis) / ssf item else 0 := by
+  unfold inFraction ssf
   simp only [fgt_def, flt_def, decide_eq_true_eq]
   rw [if_neg (not_lt.2 h.le), if_pos h]
 
@@ -121,70 +114,60 @@ theorem inFraction_of_zero (item : FlexItem Rat) (cc : Rat) (h : cc - item.flexB
   unfold inFraction
   simp only [fgt_def, flt_def, decide_eq_true_eq, h, lt_self_iff_false, if_false]
 
-/-- the sign of `content_flex_fraction` is the sign of `diff` -/
-theorem inFraction_neg (item : FlexItem Rat) (cc : Rat) : inFraction item cc < 0 ↔ cc - item.flexBasis < 0 := by
-  have h1 := one_le_fmax_one item.flexGrow
-  have h2 := one_le_fmax_one (item.flexShrink * item.innerFlexBasis)
-  rcases lt_trichotomy (cc - item.flexBasis) 0 with h | h | h
-  · rw [inFraction_of_neg item cc h]
-    refine ⟨fun _ => h, fun _ => ?_⟩
-    have := div_pos (neg_pos.2 h) (show (0 : Rat) < Num.fmax 1 (item.flexShrink * item.innerFlexBasis) by linarith)
-    rw [neg_div] at this
-    linarith
-  · rw [inFraction_of_zero item cc h, h]
-  · rw [inFraction_of_pos item cc h]
-    have : 0 < (cc - item.flexBasis) / Num.fmax 1 item.flexGrow := div_pos h (by linarith)
-    constructor <;> intro hh <;> linarith
+theorem div_neg_of_neg_pos {a b : Rat} (ha : a < 0) (hb : 0 < b) : a / b < 0 := by
+  have := div_pos (neg_pos.2 ha) hb
+  rw [neg_div] at this
+  linarith
+
+/-- a shrinking item (`diff < 0`) never gets a positive fraction -/
+theorem inFraction_nonpos_of_neg (item : FlexItem Rat) (cc : Rat) (h : cc - item.flexBasis < 0) :
+    inFraction item cc ≤ 0 := by
+  rw [inFraction_of_neg item cc h]
+  split
+  · next hs => exact (div_neg_of_neg_pos h hs).le
+  · exact le_refl 0
+
+/-- a growing item (`diff > 0`) gets a positive fraction -/
+theorem inFraction_pos_of_pos (item : FlexItem Rat) (cc : Rat) (h : 0 < cc - item.flexBasis) :
+    0 < inFraction item cc := by
+  rw [inFraction_of_pos item cc h]
+  exact div_pos h (by linarith [one_le_fmax_one item.flexGrow])
 
 theorem scaled_diff (k : Rat) (item : FlexItem Rat) (cc : Rat) :
     scale k cc - (scale k item).flexBasis = k * (cc - item.flexBasis) := by
   rw [fxi_flexBasis, scale_rat, scale_rat]; ring
 
-/-- **the floor**: `content_flex_fraction` of the scaled item, under the side condition -/
-theorem inFraction_scale (hk : 0 < k) (item : FlexItem Rat) (cc : Rat)
-    (h : cc - item.flexBasis < 0 → item.innerFlexBasis = 0 ∨
-      (1 ≤ item.flexShrink * item.innerFlexBasis ∧ 1 ≤ k * (item.flexShrink * item.innerFlexBasis))) :
-    inFraction (scale k item) (scale k cc) =
-      cffScale k (inFraction item cc) item.flexShrink item.innerFlexBasis := by
+/-- **the flex fraction**: `content_flex_fraction` of the scaled item from the scaled content contribution is the
+original one re-scaled — as a length when positive, unchanged when negative.  No side condition. -/
+theorem inFraction_scale (hk : 0 < k) (item : FlexItem Rat) (cc : Rat) :
+    inFraction (scale k item) (scale k cc) = cffScale k (inFraction item cc) := by
   have hsd := scaled_diff k item cc
   unfold cffScale
   rcases lt_trichotomy (cc - item.flexBasis) 0 with hd | hd | hd
   · have hd' : scale k cc - (scale k item).flexBasis < 0 := by rw [hsd]; exact mul_neg_of_pos_of_neg hk hd
-    rw [inFraction_of_neg _ _ hd', hsd, fxi_flexShrink, fxi_innerFlexBasis]
-    have hF := (inFraction_neg item cc).2 hd
-    rw [inFraction_of_neg item cc hd] at hF ⊢
-    rcases h hd with hb | ⟨hp, hkp⟩
-    · have hnp1 : ¬ (1 ≤ item.flexShrink * item.innerFlexBasis) := by rw [hb]; norm_num
-      rw [if_neg (fun hh => hnp1 hh.2), hb, scale_rat, scale_rat]
-      simp only [mul_zero]
-      ring
-    · rw [if_pos ⟨hF, hp⟩]
-      have e1 : Num.fmax (1 : Rat) (item.flexShrink * item.innerFlexBasis) = item.flexShrink * item.innerFlexBasis := by
-        rw [fmax_def, if_pos hp]
-      have e2 : Num.fmax (1 : Rat) (item.flexShrink * scale k item.innerFlexBasis) =
-          k * (item.flexShrink * item.innerFlexBasis) := by
-        have : item.flexShrink * scale k item.innerFlexBasis = k * (item.flexShrink * item.innerFlexBasis) := by
-          rw [scale_rat]; ring
-        rw [this, fmax_def, if_pos hkp]
-      rw [e1, e2]
-      have hne : item.flexShrink * item.innerFlexBasis ≠ 0 := by
-        intro h0; rw [h0] at hp; norm_num at hp
-      field_simp
+    rw [inFraction_of_neg _ _ hd', hsd, ssf_scale, inFraction_of_neg item cc hd]
+    by_cases hs : 0 < ssf item
+    · have hks : 0 < k * ssf item := mul_pos hk hs
+      have hF : (cc - item.flexBasis) / ssf item < 0 := div_neg_of_neg_pos hd hs
+      rw [if_pos hks, if_pos hs, if_pos hF]
+      exact mul_div_mul_left _ _ hk.ne'
+    · have hks : ¬ (0 < k * ssf item) := by
+        have := mul_nonneg hk.le (neg_nonneg.2 (not_lt.1 hs))
+        rw [mul_neg] at this
+        intro h
+        linarith
+      rw [if_neg hks, if_neg hs, if_neg (lt_irrefl 0), scale_zero]
   · have hd' : scale k cc - (scale k item).flexBasis = 0 := by rw [hsd, hd, mul_zero]
-    rw [inFraction_of_zero _ _ hd', inFraction_of_zero _ _ hd]
-    simp only [lt_self_iff_false, false_and, if_false, scale_zero]
+    rw [inFraction_of_zero _ _ hd', inFraction_of_zero _ _ hd, if_neg (lt_irrefl 0), scale_zero]
   · have hd' : 0 < scale k cc - (scale k item).flexBasis := by rw [hsd]; exact mul_pos hk hd
-    have hn : ¬ (inFraction item cc < 0) := fun hh => absurd ((inFraction_neg item cc).1 hh) (not_lt.2 hd.le)
-    rw [inFraction_of_pos _ _ hd', hsd, fxi_flexGrow, if_neg (fun hh => hn hh.1), inFraction_of_pos _ _ hd, scale_rat]
+    have hn : ¬ (inFraction item cc < 0) := not_lt.2 (inFraction_pos_of_pos item cc hd).le
+    rw [inFraction_of_pos _ _ hd', hsd, fxi_flexGrow, if_neg hn, inFraction_of_pos _ _ hd, scale_rat]
     ring
 
-theorem inFinish_scale (hk : 0 < k) (item : FlexItem Rat) (cc : Rat) (h : ItemFloorFree k (inFinish item cc)) :
+theorem inFinish_scale (hk : 0 < k) (item : FlexItem Rat) (cc : Rat) :
     inFinish (scale k item) (scale k cc) = scale k (inFinish item cc) := by
-  have h' : cc - item.flexBasis < 0 → item.innerFlexBasis = 0 ∨
-      (1 ≤ item.flexShrink * item.innerFlexBasis ∧ 1 ≤ k * (item.flexShrink * item.innerFlexBasis)) :=
-    fun hd => h ((inFraction_neg item cc).2 hd)
   unfold inFinish
-  rw [inFraction_scale hk item cc h']
+  rw [inFraction_scale hk item cc]
   simp only [scale_fxi_mk, fxi_nodeIdx, fxi_order, fxi_size, fxi_minSize, fxi_maxSize, fxi_alignSelf,
     fxi_overflow, fxi_scrollbarWidth, fxi_flexShrink, fxi_flexGrow, fxi_resolvedMinimumMainSize, fxi_inset, fxi_margin,
     fxi_marginIsAuto, fxi_padding, fxi_border, fxi_flexBasis, fxi_innerFlexBasis, fxi_violation, fxi_frozen,
@@ -219,40 +202,36 @@ theorem inContribution_scale (hk : 0 < k) (c : AlgoConstants Rat) (av : Size (Av
           · rw [inContentRow_scale hk]; rfl
           · rw [inContentCol_scale hk]; rfl
 
-theorem intrinsicItem_sim (hk : 0 < k) (c : AlgoConstants Rat) (av : Size (AvailableSpace Rat)) (inset : Rat)
+theorem intrinsicItem_scale (hk : 0 < k) (c : AlgoConstants Rat) (av : Size (AvailableSpace Rat)) (inset : Rat)
     (item : FlexItem Rat) :
-    SimS k (fun i' i => ItemFloorFree k i → i' = scale k i)
-      (intrinsicItem (scale k c) (scale k av) (scale k inset) (scale k item)) (intrinsicItem c av inset item) := by
+    intrinsicItem (scale k c) (scale k av) (scale k inset) (scale k item) =
+      scaleProg k (intrinsicItem c av inset item) := by
   rw [intrinsicItem_eq, intrinsicItem_eq]
-  refine SimS.bind (SimS.of_eq' hk (inContribution_scale hk c av inset item)) fun cc' cc hcc => ?_
-  subst hcc
-  exact .pure _ _ fun h => inFinish_scale hk item cc h
+  apply bind_scale_of
+  · exact inContribution_scale hk c av inset item
+  · intro cc
+    rw [inFinish_scale hk]
+    rfl
 
-theorem intrinsicItems_sim (hk : 0 < k) (c : AlgoConstants Rat) (av : Size (AvailableSpace Rat)) (inset : Rat) :
+theorem intrinsicItems_scale (hk : 0 < k) (c : AlgoConstants Rat) (av : Size (AvailableSpace Rat)) (inset : Rat) :
     ∀ (items : List (FlexItem Rat)),
-      SimS k (fun l' l => ItemsFloorFree k l → l' = scale k l)
-        (intrinsicItems (scale k c) (scale k av) (scale k inset) (scale k items)) (intrinsicItems c av inset items)
-  | [] => .pure _ _ fun _ => rfl
+      intrinsicItems (scale k c) (scale k av) (scale k inset) (scale k items) =
+        scaleProg k (intrinsicItems c av inset items)
+  | [] => rfl
   | item :: rest => by
     rw [scale_cons]
     unfold intrinsicItems
-    refine SimS.bind (intrinsicItem_sim hk c av inset item) fun i' i hi => ?_
-    refine SimS.bind (intrinsicItems_sim hk c av inset rest) fun r' r hr => ?_
-    refine .pure _ _ fun h => ?_
-    rw [hi (h i List.mem_cons_self), hr fun x hx => h x (List.mem_cons_of_mem _ hx)]
-    rfl
-
-theorem intrinsicTarget_fields (dir : FlexDirection) (i : FlexItem Rat) :
-    (intrinsicTarget dir i).1.contentFlexFraction = i.contentFlexFraction ∧
-    (intrinsicTarget dir i).1.flexShrink = i.flexShrink ∧
-    (intrinsicTarget dir i).1.innerFlexBasis = i.innerFlexBasis := ⟨rfl, rfl, rfl⟩
-
-theorem intrinsicTarget_floorFree (dir : FlexDirection) (i : FlexItem Rat) :
-    ItemFloorFree k (intrinsicTarget dir i).1 ↔ ItemFloorFree k i := Iff.rfl
+    apply bind_scale_of
+    · exact intrinsicItem_scale hk c av inset item
+    · intro i
+      apply bind_scale_of
+      · exact intrinsicItems_scale hk c av inset rest
+      · intro r
+        rfl
 
 /-- one line of the intrinsic arm after the items' queries: targets, their sum, the running main size -/
 theorem intrinsicLine_scale (hk : 0 < k) (c : AlgoConstants Rat) (line : FlexLineS Rat) (items : List (FlexItem Rat))
-    (ms : Rat) (h : ItemsFloorFree k items) :
+    (ms : Rat) :
     (({ scale k line with items := ((scale k items).map (intrinsicTarget c.dir)).map (·.1) } : FlexLineS Rat),
       Num.fmax (scale k ms) (sumF (((scale k items).map (intrinsicTarget c.dir)).map (·.2)) +
         sumAxisGaps (scale k (c.gap.main c.dir)) line.items.length)) =
@@ -262,43 +241,35 @@ theorem intrinsicLine_scale (hk : 0 < k) (c : AlgoConstants Rat) (line : FlexLin
   have ht : (scale k items).map (intrinsicTarget c.dir) = scale k (items.map (intrinsicTarget c.dir)) := by
     rw [scale_list, scale_list, List.map_map, List.map_map]
     apply List.map_congr_left
-    intro i hi
-    exact intrinsicTarget_scale hk c.dir i fun hc => by
-      rcases h i hi hc with hb | ⟨hp, _⟩
-      · exact Or.inl hb
-      · exact Or.inr hp
+    intro i _
+    exact intrinsicTarget_scale hk c.dir i
   rw [ht, map_scale_comm k (fun p : FlexItem Rat × Rat => p.1) (fun p : FlexItem Rat × Rat => p.1) (fun _ => rfl),
     map_scale_comm k (fun p : FlexItem Rat × Rat => p.2) (fun p : FlexItem Rat × Rat => p.2) (fun _ => rfl),
     sumF_scale, sumAxisGaps_scale, add_scale, fmax_scale hk]
   rfl
 
-theorem floorFree_of_targets (dir : FlexDirection) (items : List (FlexItem Rat))
-    (h : ItemsFloorFree k ((items.map (intrinsicTarget dir)).map (·.1))) : ItemsFloorFree k items := by
-  intro i hi
-  exact h (intrinsicTarget dir i).1 (List.mem_map.2 ⟨intrinsicTarget dir i, List.mem_map.2 ⟨i, hi, rfl⟩, rfl⟩)
-
-theorem intrinsicLines_sim (hk : 0 < k) (c : AlgoConstants Rat) (av : Size (AvailableSpace Rat)) (inset : Rat) :
-    ∀ (lines : List (FlexLineS Rat)) (ms' ms : Rat),
-      SimS k (fun r' r => ms' = scale k ms → LinesFloorFree k r.1 → r' = scale k r)
-        (intrinsicLines (scale k c) (scale k av) (scale k inset) (scale k lines) ms')
-        (intrinsicLines c av inset lines ms)
-  | [], ms', ms => .pure _ _ fun h _ => by rw [h]; rfl
-  | line :: rest, ms', ms => by
+/-- **intrinsicLines_scale**: the `for line in lines.iter_mut()` loop of the intrinsic arm, from any running main size -/
+theorem intrinsicLines_scale (hk : 0 < k) (c : AlgoConstants Rat) (av : Size (AvailableSpace Rat)) (inset : Rat) :
+    ∀ (lines : List (FlexLineS Rat)) (ms : Rat),
+      intrinsicLines (scale k c) (scale k av) (scale k inset) (scale k lines) (scale k ms) =
+        scaleProg k (intrinsicLines c av inset lines ms)
+  | [], ms => rfl
+  | line :: rest, ms => by
     rw [scale_cons]
     unfold intrinsicLines
     rw [fxl_items]
-    refine SimS.bind (intrinsicItems_sim hk c av inset line.items) fun items' items hi => ?_
-    simp only [fxk_dir, fxk_gap, Size.main_scale, fxl_items, length_scale]
-    refine SimS.bind (intrinsicLines_sim hk c av inset rest _ _) fun r' r hr => ?_
-    obtain ⟨rl', rm'⟩ := r'
-    obtain ⟨rl, rm⟩ := r
-    refine .pure _ _ fun hms hff => ?_
-    have hit : ItemsFloorFree k items := floorFree_of_targets c.dir items (hff _ List.mem_cons_self)
-    have hl := intrinsicLine_scale hk c line items ms hit
-    rw [Prod.mk.injEq] at hl
-    have hr' := hr (by rw [hi hit, hms]; exact hl.2) fun l hl' => hff l (List.mem_cons_of_mem _ hl')
-    rw [scale_pair, Prod.mk.injEq] at hr'
-    show (_ :: rl', rm') = scale k (_ :: rl, rm)
-    rw [hr'.1, hr'.2, scale_pair, scale_cons, ← hl.1, hi hit]
+    apply bind_scale_of
+    · exact intrinsicItems_scale hk c av inset line.items
+    · intro items
+      simp only [fxk_dir, fxk_gap, Size.main_scale, fxl_items, length_scale]
+      have hl := intrinsicLine_scale hk c line items ms
+      rw [Prod.mk.injEq] at hl
+      rw [hl.2]
+      apply bind_scale_of
+      · exact intrinsicLines_scale hk c av inset rest _
+      · intro r
+        obtain ⟨rl, rm⟩ := r
+        show ProgM.pure (_ :: (scale k (rl, rm)).1, (scale k (rl, rm)).2) = ProgM.pure (scale k (_ :: rl, rm))
+        rw [scale_pair, scale_pair, scale_cons, ← hl.1]
 
 end C04
